@@ -92,6 +92,11 @@ def emitLoadImm (e : Em) (dst : Nat) (imm : Int) : Em :=
   if -2147483648 ≤ imm ∧ imm ≤ 2147483647 then emitAlu64Imm32 e 0xc7 0 dst imm
   else emit8 (emit1 (emitBasicRex e 1 0 dst) (0xb8 ||| (dst &&& 7))) (u64 imm)
 
+/-- `emit_load_packet(size, base, imm)`: `[base + (imm as u32)]` into RAX; a negative immediate goes through RCX -/
+def emitLoadPacket (e : Em) (size base : Nat) (imm : Int) : Em :=
+  if 0 ≤ imm then emitLoad e size base RAX imm
+  else emitLoad (emitAlu64 (emitLoadImm e RCX (imm + 2 ^ 32)) 0x01 base RCX) size RCX RAX 0
+
 def emitStore (e : Em) (size src dst : Nat) (off : Int) : Em :=
   let e := if size = 16 then emit1 e 0x66 else e
   let e := if size = 64 ∨ (src &&& 8) ≠ 0 ∨ (dst &&& 8) ≠ 0 ∨ size = 8 then emitRex e (if size = 64 then 1 else 0) (masked src) 0 (masked dst) else e
@@ -187,12 +192,12 @@ def arm (e : Em) (helperAddr : Nat → Option Nat) (pc : Nat) (i : Insn) (next :
     let jccCmp (code : Nat) := ok (emitJcc (emitCmp e src dst) code targetPc)
     let jccCmp32Imm (code : Nat) := ok (emitJcc (emitCmp32Imm32 e dst imm) code targetPc)
     let jccCmp32 (code : Nat) := ok (emitJcc (emitCmp32 e src dst) code targetPc)
-    let ldInd (size : Nat) := ok (emitLoad (emitAlu64 (emitMov e R10 R11) 0x01 src R11) size R11 RAX imm)
+    let ldInd (size : Nat) := ok (emitLoadPacket (emitAlu64 (emitMov e R10 R11) 0x01 src R11) size R11 imm)
     let shiftReg64 (ext : Nat) := ok (emitAlu64 (emitMov e src RCX) 0xd3 ext dst)
     let shiftReg32 (ext : Nat) := ok (emitAlu32 (emitMov e src RCX) 0xd3 ext dst)
     match opc with
-    | 0x30 => ok (emitLoad e 8 R10 RAX imm) | 0x28 => ok (emitLoad e 16 R10 RAX imm)
-    | 0x20 => ok (emitLoad e 32 R10 RAX imm) | 0x38 => ok (emitLoad e 64 R10 RAX imm)
+    | 0x30 => ok (emitLoadPacket e 8 R10 imm) | 0x28 => ok (emitLoadPacket e 16 R10 imm)
+    | 0x20 => ok (emitLoadPacket e 32 R10 imm) | 0x38 => ok (emitLoadPacket e 64 R10 imm)
     | 0x50 => ldInd 8 | 0x48 => ldInd 16 | 0x40 => ldInd 32 | 0x58 => ldInd 64
     | 0x18 =>
       match next with
@@ -308,6 +313,19 @@ def compile (p : Bytes) (helperAddr : Nat → Option Nat) (useMbuff updateDataPt
   match body p helperAddr (p.size / 8 + 1) 0 e0 with
   | .error f => .error f
   | .ok e => resolveJumps (epilogue e)
+
+/-- `compile` together with the location table it used (`pc_locs`) and the epilogue's offset -/
+def compileWithLayout (p : Bytes) (helperAddr : Nat → Option Nat) (useMbuff updateDataPtr : Bool) :
+    Except Fail (Array UInt8 × Array Nat × Nat) :=
+  let e0 := prologue useMbuff updateDataPtr
+  let e0 := { e0 with pcLocs := Array.replicate (p.size / 8 + 1) 0 }
+  match body p helperAddr (p.size / 8 + 1) 0 e0 with
+  | .error f => .error f
+  | .ok e =>
+    let e' := epilogue e
+    match resolveJumps e' with
+    | .error f => .error f
+    | .ok code => .ok (code, e'.pcLocs, e'.exitAnchor.getD 0)
 
 /-- the buffer `JitMemory::new` allocates for a first-pass size -/
 def bufferSize (codeSize : Nat) : Nat := ((max codeSize 4096) + 4095) / 4096 * 4096
